@@ -41,6 +41,17 @@ pub fn explore(ex: &Ex) {
                 ex.decode(l, "c08.wide", ty, Entry::Slice, &bytes);
             }
         });
+        // many counter signatures (list width is not nesting depth)
+        for n in [9usize, 17, 33, 65] {
+            let mut l = crate::mc::Local::default();
+            let sigs: Vec<Item> = (0..n).map(|k| if k % 2 == 0 { gen::sig_valid() } else { gen::sig_valid2() }).collect();
+            let m = gen::map(vec![(u(7), gen::arr(sigs))]).det();
+            l.state(n as u64);
+            for (_n, ty, bytes) in header_carriers(&m, n <= 17) {
+                ex.decode(&mut l, "c08.long", ty, Entry::Slice, &bytes);
+            }
+            ex.rep.merge(l);
+        }
         // long strings in typed fields
         for n in [23usize, 24, 255, 256, 65536] {
             let mut l = crate::mc::Local::default();
